@@ -145,7 +145,7 @@ impl<'a> Probe<'a> {
                 }
             }
             Ok(Err(e)) => {
-                if let Err(p) = catch(|| e.to_string()) {
+                if let Err(p) = catch(|| (e.to_string(), format!("{:?}", e))) {
                     self.panic("format-card-error", s, &p);
                 }
             }
@@ -158,14 +158,18 @@ impl<'a> Probe<'a> {
                     self.panic("use-of-parsed-card-pair", s, &p);
                 }
             }
-            Ok(Err(_)) => {}
+            Ok(Err(e)) => {
+                if let Err(p) = catch(|| format!("{:?}", e)) {
+                    self.panic("format-card-pair-error", s, &p);
+                }
+            }
             Err(p) => self.panic("parse-card-pair", s, &p),
         }
         // ---- token
         match catch(|| s.parse::<HandRangeToken>()) {
             Ok(Ok(tok)) => {
                 self.stats.ok_token += 1;
-                match catch(|| tok.to_string()) {
+                match catch(|| (tok.to_string(), format!("{:?}", tok))) {
                     Ok(_) => {}
                     Err(p) => self.panic("format-parsed-token", s, &p),
                 }
@@ -194,6 +198,14 @@ impl<'a> Probe<'a> {
                 }
                 if let Err(p) = catch(|| (&range).into_iter().count()) {
                     self.panic("iterate-parsed-range", s, &p);
+                }
+                if n <= 200 || heavy {
+                    if let Err(p) = catch(|| {
+                        let copy = range.clone();
+                        (copy == range, format!("{:?}", copy).len(), copy.card_pairs().len())
+                    }) {
+                        self.panic("clone-compare-debug-parsed-range", s, &p);
+                    }
                 }
                 match catch(|| range.to_string()) {
                     Ok(text) => {
